@@ -85,7 +85,10 @@ class Grid(BaseGrid):
         default_limits = [1, imax0 - 1, 1, jmax0 - 1]
         limits = list(subgrid) if subgrid else default_limits
         # None means no limitation
-        limits = [d if v is None else v for v, d in zip(limits, default_limits)]
+        limits = [
+            d if v is None else v
+            for v, d in zip(limits, default_limits, strict=True)
+        ]
         # Negative values are counting from right/upper end of model domain
         for i in [0, 1]:
             if limits[i] < 0:
